@@ -25,6 +25,9 @@ def parseNumDesc (s : String) : Option NumDesc :=
   | ["R", a, b] => do pure (.rat (← a.toNat?) (← b.toNat?))
   | ["T", f, r, e] => do pure (.test (← intList f) (← intList r) (← e.toInt?))
   | ["F", f, e] => do pure (.finite (← intList f) (← e.toInt?))
+  -- TM / FM: the caller overwrites its digit slices after construction (C14): same Number expected
+  | ["TM", f, r, e] => do pure (.test (← intList f) (← intList r) (← e.toInt?))
+  | ["FM", f, e] => do pure (.finite (← intList f) (← e.toInt?))
   | ["G", l, e, i] => do pure (.gen (← l.toInt?) (← e.toInt?) (i == "1") none)
   | ["G", l, e, i, f] => do pure (.gen (← l.toInt?) (← e.toInt?) (i == "1") (some (← f.toInt?)))
   | _ => none
@@ -120,6 +123,9 @@ def parseStmt (s : String) : Option Stmt :=
   | ["fwr", h, o, m, k] => do pure (.fwr (← h.toNat?) (← parseOptSet o) (← m.toNat?) (← k.toNat?))
   | [op, h, p] => if ["ff", "fa", "fl"].contains op then do pure (.find op (← h.toNat?) (← parsePat p) 0) else none
   | [op, h, p, n] =>
+    -- findm / findrm / mm / bmm: the caller overwrites the pattern while the iterator is live (C14):
+    -- the same answers are expected
+    let op := match op with | "findm" => "find" | "findrm" => "findr" | "mm" => "m" | "bmm" => "bm" | o => o
     if ["ffn", "fln", "find", "findr", "m", "m2", "bm"].contains op then
       do pure (.find op (← h.toNat?) (← parsePat p) (← n.toInt?))
     else none
